@@ -27,6 +27,23 @@ var (
 	c15Idents     = []string{"primary", "alt"}
 )
 
+// c15SpecialNames are question names that a middleware of the chain treats
+// specially: Android private-DNS probe names (preupstream resolves them under
+// one shared replacement name), DDR and other resolver.arpa names, the
+// Firefox canary, Chrome prefetch and Apple Private Relay names (initial).
+var c15SpecialNames = []string{
+	"a1b2c3d4-dnsotls-ds.metric.gstatic.com.",
+	"0f9e8d-dnsohttps-ds.metric.gstatic.com.",
+	"A1B2C3D4-DnsOTLS-ds.Metric.GStatic.COM.",
+	"00ff11-DNSOHTTPS-DS.metric.gstatic.com.",
+	"_dns.resolver.arpa.",
+	"foo.Resolver.ARPA.",
+	"use-application-dns.net.",
+	"Mask.iCloud.com.",
+	"mask-h2.icloud.com.",
+	"dns-tunnel-check.googlezip.net.",
+}
+
 // c15Case is one (configuration, request) pair.
 type c15Case struct {
 	Conf  c15Config `json:"conf"`
@@ -554,6 +571,50 @@ func TestVerifC15(t *testing.T) {
 			}
 		},
 		func(c c15Case) []vrt.Finding { return c15Run(r, c) },
+	)
+
+	// Part 2: question names that a middleware of the chain special-cases on
+	// the way in.  The oracle is the same: whatever the chain does with such
+	// a name internally, a record carries the name, type and rcode of its own
+	// request as the client sent / received them.
+	spOutcomes := []string{"passed", "req-blocked", "resp-blocked", "rewritten-cname", "req-allowed+resp-ip-blocked", "upstream-nxdomain"}
+	spWarms := []string{"", "same-question"}
+	if thorough {
+		spWarms = c15Warms
+	}
+	r.Bound("special_names", strings.Join(c15SpecialNames, " "))
+	r.Bound("special_qtypes", "A AAAA HTTPS SVCB")
+	vrt.Part(r, "special-names",
+		func(emit func(c15Case)) {
+			for _, warm := range spWarms {
+				for _, block := range []bool{false, true} {
+					for _, outcome := range spOutcomes {
+						for _, name := range c15SpecialNames {
+							for _, proto := range c15Protos {
+								for _, qt := range []uint16{dns.TypeA, dns.TypeAAAA, dns.TypeHTTPS, dns.TypeSVCB} {
+									for _, req := range []string{"anonymous", "profile"} {
+										for _, ql := range []bool{false, true} {
+											for _, ip := range []bool{false, true} {
+												emit(c15Case{
+													Conf:  c15Config{Requester: req, QL: ql, IP: ip, Outcome: outcome, Mode: "null_ip", BlockSpecial: block},
+													Proto: proto, QType: qt, Name: name, Fam: "v4", Warm: warm, Ident: "primary",
+												})
+											}
+										}
+									}
+								}
+							}
+						}
+					}
+				}
+			}
+		},
+		func(c c15Case) []vrt.Finding {
+			fs := c15Run(r, c)
+			r.Count("special_name_cases", 1)
+
+			return fs
+		},
 	)
 
 	if !r.Replaying() {
